@@ -3,19 +3,27 @@ package verifc04
 import (
 	"archive/tar"
 	"fmt"
+	"os"
 )
 
 // Suspects is the clearly labelled stream of candidate findings: hand-written hostile inputs for
 // the sites named in DESIGN.md (C04) that the repairs did not cover.  Each input is an ordinary
 // input of the executor: if the code handles it with an error nothing is reported.
-func Suspects(g *Gen) []Input {
+func Suspects(g *Gen) (early, lateIn []Input) {
 	gz := g.Bases[0]
 	body := gz.Blob[:len(gz.Blob)-51]
-	var out []Input
+	var out, late []Input
 	add := func(name string, in Input) {
 		in.Suspect = name
 		in.Class = "suspect:" + name
 		out = append(out, in)
+	}
+	// inputs expected to end in a loop go last: after a few hangs of one target the executor stops
+	// running that target, which must not mask the crash-type suspects
+	addLate := func(name string, in Input) {
+		in.Suspect = name
+		in.Class = "suspect:" + name
+		late = append(late, in)
 	}
 	toc := func(ents ...Ent) []byte { return tocText(1, ents) }
 	reg := func() Ent { return cloneEnts(gz.Entries)[entIdx(gz.Entries, "d/a.txt")] }
@@ -38,16 +46,17 @@ func Suspects(g *Gen) []Input {
 	add("huge-chunksize-2^40", g.blobInput(gz, "", toc(E("d/", "dir"), r2)))
 	// chunkOffset+chunkSize overflow
 	r3 := reg()
-	add("chunk-offset-plus-size-overflow", g.blobInput(gz, "", toc(E("d/", "dir"), r3,
+	addLate("chunk-offset-plus-size-overflow", g.blobInput(gz, "", toc(E("d/", "dir"), r3,
 		E("d/a.txt", "chunk", "offset", r3["offset"], "chunkOffset", num("9223372036854775800"), "chunkSize", 100))))
 	// chunk beyond the file size: the store's ReadAt returns 0 bytes, file.ReadAt does not advance
 	r4 := reg()
-	add("chunk-beyond-file-size", g.blobInput(gz, "", toc(E("d/", "dir"), r4,
-		E("d/a.txt", "chunk", "offset", r4["offset"], "chunkOffset", 4, "chunkSize", 4),
-		E("d/a.txt", "chunk", "offset", r4["offset"], "chunkOffset", 20, "chunkSize", 5))))
+	zeros5 := "sha256:8855508aade16ec573d21e6a485dfd0a7624085c1a14b5ecdd6485de0c6839a4" // sha256 of 5 zero bytes
+	addLate("chunk-beyond-file-size", g.blobInput(gz, "", toc(E("d/", "dir"), r4,
+		E("d/a.txt", "chunk", "offset", r4["offset"], "chunkOffset", 4, "chunkSize", 4, "chunkDigest", r4["chunkDigest"]),
+		E("d/a.txt", "chunk", "offset", r4["offset"], "chunkOffset", 20, "chunkSize", 5, "chunkDigest", zeros5))))
 	// zero-sized chunk at EOF (implicit chunk size = size - chunkOffset = 0): passthrough collection loop
 	r5 := reg()
-	add("zero-chunk-at-eof", g.blobInput(gz, "", toc(E("d/", "dir"), r5,
+	addLate("zero-chunk-at-eof", g.blobInput(gz, "", toc(E("d/", "dir"), r5,
 		E("d/a.txt", "chunk", "offset", r5["offset"], "chunkOffset", 4, "chunkSize", 6),
 		E("d/a.txt", "chunk", "offset", r5["offset"], "chunkOffset", 10))))
 	// overlapping chunk table + passthrough batches
@@ -58,7 +67,7 @@ func Suspects(g *Gen) []Input {
 	// negative chunk sizes walking backwards in the prefetch loop
 	r7 := reg()
 	r7["chunkSize"] = 5
-	add("chunk-size-walks-back", g.blobInput(gz, "", toc(E("d/", "dir"), r7,
+	addLate("chunk-size-walks-back", g.blobInput(gz, "", toc(E("d/", "dir"), r7,
 		E("d/a.txt", "chunk", "offset", r7["offset"], "chunkOffset", 5, "chunkSize", -5))))
 	// TOC offset beyond the blob (the db store has its own copy of Open's arithmetic)
 	add("toc-offset-beyond-blob", Input{Kind: "blob", Data: append(append([]byte{}, body...), GzipFooter(StargzExtra(fmt.Sprintf("%016x", int64(1)<<40)))...)})
@@ -70,8 +79,10 @@ func Suspects(g *Gen) []Input {
 			Data: append(append([]byte{}, zbody...), skippable(ZstdFooter(uint64(len(zb.Payload))+8, cl, 10, true))...)})
 	}
 	// deep trees
-	add("deep-path-20000", g.blobInput(gz, "", toc(E(deepName(20000, "f"), "reg"))))
-	add("deep-path-10001", g.blobInput(gz, "", toc(E(deepName(10001, "f"), "reg"))))
+	if os.Getenv("VERIF_TIER") == "thorough" {
+		addLate("deep-path-20000", g.blobInput(gz, "", toc(E(deepName(20000, "f"), "reg"))))
+	}
+	addLate("deep-path-10001", g.blobInput(gz, "", toc(E(deepName(10001, "f"), "reg"))))
 	// hardlinks in the db store: cycles and links to directories
 	add("hardlink-cycle", g.blobInput(gz, "", toc(E("a", "hardlink", "linkName", "b"), E("b", "hardlink", "linkName", "a"))))
 	add("hardlink-to-parent-dir", g.blobInput(gz, "", toc(E("d/", "dir"), E("d/x", "hardlink", "linkName", "d"))))
@@ -81,5 +92,5 @@ func Suspects(g *Gen) []Input {
 	add("build-hardlink-cycle-prioritized", Input{Kind: "tar", Data: MakeTar(cyc), Prio: []string{"l1"}})
 	self := append(baseTar(), tarEnt{name: "s", typ: tar.TypeLink, link: "s"})
 	add("build-hardlink-self-prioritized", Input{Kind: "tar", Data: MakeTar(self), Prio: []string{"s"}})
-	return out
+	return out, late
 }
